@@ -864,4 +864,140 @@ theorem blockRows_eq (s : Nat) (b' : List Nat) (hp : (s :: b').Pairwise (· ≤ 
     have hshi : s ≤ hi := List.rel_of_pairwise_cons hp (by simp)
     rw [blockRows, ih hi hp', lastB_cons, ← pyRange_split s hi _ hshi (le_lastB hi r hp')]
 
+/-! ### the binary search on a sorted table -/
+
+/-- with the loop invariant "everything left of `lo` is `< v`, everything from `hi` on is `≥ v`" and enough
+fuel, the search ends at the split point -/
+theorem bsearch_sorted (a : List Int) (v : Int) (hs : a.Pairwise (· ≤ ·)) (fuel lo hi : Nat)
+    (hh : hi ≤ a.length) (hlh : lo ≤ hi) (hf : hi - lo < fuel)
+    (hL : ∀ i x, a[i]? = some x → i < lo → x < v)
+    (hR : ∀ i x, a[i]? = some x → hi ≤ i → v ≤ x) :
+    ∃ r, bsearch a v fuel lo hi = .ok r ∧ r ≤ a.length ∧
+      (∀ i x, a[i]? = some x → i < r → x < v) ∧ (∀ i x, a[i]? = some x → r ≤ i → v ≤ x) := by
+  induction fuel generalizing lo hi with
+  | zero => omega
+  | succ fuel ih =>
+    unfold bsearch
+    by_cases hlt : lo < hi
+    · simp only [hlt, if_true]
+      have hm : (lo + hi) / 2 < a.length := by omega
+      rw [readAt_ok a _ hm]
+      simp only
+      have hsorted := List.pairwise_iff_getElem.mp hs
+      by_cases hx : a[(lo + hi) / 2] < v
+      · simp only [hx, if_true]
+        apply ih ((lo + hi) / 2 + 1) hi hh (by omega) (by omega) _ hR
+        intro i x hix hi'
+        obtain ⟨hil, rfl⟩ := List.getElem?_eq_some_iff.mp hix
+        by_cases he : i = (lo + hi) / 2
+        · subst he; exact hx
+        · have := hsorted i ((lo + hi) / 2) hil hm (by omega)
+          omega
+      · simp only [hx, if_false]
+        apply ih lo ((lo + hi) / 2) (by omega) (by omega) (by omega) hL
+        intro i x hix hi'
+        obtain ⟨hil, rfl⟩ := List.getElem?_eq_some_iff.mp hix
+        by_cases he : i = (lo + hi) / 2
+        · subst he; omega
+        · have := hsorted ((lo + hi) / 2) i hm hil (by omega)
+          omega
+    · simp only [hlt, if_false]
+      have : lo = hi := by omega
+      subst this
+      exact ⟨lo, rfl, hh, hL, hR⟩
+
+/-- a split point of a list is the number of entries `< v` -/
+theorem countP_of_split (a : List Int) (v : Int) (r : Nat) (hr : r ≤ a.length)
+    (hL : ∀ i x, a[i]? = some x → i < r → x < v) (hR : ∀ i x, a[i]? = some x → r ≤ i → v ≤ x) :
+    a.countP (fun x => decide (x < v)) = r := by
+  conv => lhs; rw [← List.take_append_drop r a]
+  rw [List.countP_append]
+  have h1 : (a.take r).countP (fun x => decide (x < v)) = (a.take r).length := by
+    rw [List.countP_eq_length]
+    intro x hx
+    obtain ⟨i, hi⟩ := List.mem_iff_getElem?.mp hx
+    rw [List.getElem?_take] at hi
+    split at hi
+    · simpa using hL i x hi (by assumption)
+    · cases hi
+  have h2 : (a.drop r).countP (fun x => decide (x < v)) = 0 := by
+    rw [List.countP_eq_zero]
+    intro x hx
+    obtain ⟨i, hi⟩ := List.mem_iff_getElem?.mp hx
+    rw [List.getElem?_drop] at hi
+    have := hR (r + i) x hi (by omega)
+    simp; omega
+  rw [h1, h2, List.length_take]
+  omega
+
+theorem searchsorted_sorted (a : List Int) (v : Int) (hs : a.Pairwise (· ≤ ·)) :
+    searchsorted a v = .ok (a.countP (fun x => decide (x < v))) ∧
+    (v ∈ a → a[a.countP (fun x => decide (x < v))]? = some v) := by
+  obtain ⟨r, h1, hr, hL, hR⟩ := bsearch_sorted a v hs (a.length + 1) 0 a.length (Nat.le_refl _)
+    (Nat.zero_le _) (by omega) (fun i x _ hi => by omega)
+    (fun i x hix hi => by
+      have := (List.getElem?_eq_some_iff.mp hix).1
+      omega)
+  have hc := countP_of_split a v r hr hL hR
+  rw [hc]
+  refine ⟨h1, ?_⟩
+  intro hv
+  obtain ⟨i, hi⟩ := List.mem_iff_getElem?.mp hv
+  have hil := (List.getElem?_eq_some_iff.mp hi).1
+  have hri : r ≤ i := by
+    by_contra hlt
+    have := hL i v hi (by omega)
+    omega
+  have hrl : r < a.length := by omega
+  have hge := hR r a[r] (List.getElem?_eq_getElem hrl) (Nat.le_refl _)
+  have hle : a[r] ≤ v := by
+    by_cases he : r = i
+    · subst he
+      have := (List.getElem?_eq_some_iff.mp hi).2
+      omega
+    · have := List.pairwise_iff_getElem.mp hs r i hrl hil (by omega)
+      have h2 := (List.getElem?_eq_some_iff.mp hi).2
+      omega
+  rw [List.getElem?_eq_getElem hrl]
+  congr 1
+  omega
+
+theorem ssVal_sorted (a : List Int) (v : Int) (hs : a.Pairwise (· ≤ ·)) :
+    ssVal a v = a.countP (fun x => decide (x < v)) := by
+  simp [ssVal, (searchsorted_sorted a v hs).1]
+
+/-! ### distinctness over all tracers -/
+
+/-- the cell of a write: (tracer, index) -/
+def cellOf (w : W) : Nat × Nat := (w.1, w.2.1)
+
+theorem proj_fst_eq (c : Nat) (ws : List W) :
+    (proj c ws).map (·.1) = ((ws.map cellOf).filter (fun p => p.1 = c)).map (·.2) := by
+  induction ws with
+  | nil => rfl
+  | cons w ws ih =>
+    rw [proj_cons]
+    by_cases h : w.1 = c <;> simp [h, ih, cellOf]
+
+/-- a list of tagged cells whose every fibre is duplicate free is duplicate free -/
+theorem nodup_of_fibres (L : List (Nat × Nat))
+    (h : ∀ c, ((L.filter (fun p => p.1 = c)).map (·.2)).Nodup) : L.Nodup := by
+  induction L with
+  | nil => exact List.nodup_nil
+  | cons p L ih =>
+    rw [List.nodup_cons]
+    constructor
+    · intro hp
+      have := h p.1
+      simp only [List.filter_cons, decide_true, if_true, List.map_cons, List.nodup_cons] at this
+      apply this.1
+      exact List.mem_map.mpr ⟨p, List.mem_filter.mpr ⟨hp, by simp⟩, rfl⟩
+    · apply ih
+      intro c
+      have := h c
+      by_cases hc : p.1 = c
+      · simp only [List.filter_cons, hc, decide_true, if_true, List.map_cons, List.nodup_cons] at this
+        exact this.2
+      · simpa [List.filter_cons, hc] using this
+
 end AbacusVerif.TwoPass
